@@ -257,7 +257,78 @@ func c06Processed(c *Ctx) {
 			}
 		}
 	})
-	c.verdict(unmarkOK, "ChunkStorage.StoreChunk:unmark-on-error", fn.Pos(), "a failed store unmarks the id (deferred, installed before the store call)", "a failed StoreChunk leaves the id marked as processed: a later duplicate would be skipped as if it had been stored")
+	// the same written out: on the failure edge of ws.StoreChunk every path to a return calls unmarkProcessed
+	if !unmarkOK {
+		for _, sc := range calls(fn, named("(desync.WriteStore).StoreChunk")) {
+			var errv ssa.Value
+			if v, ok := sc.(ssa.Value); ok {
+				errv = v
+			}
+			if errv == nil {
+				continue
+			}
+			for _, b := range fn.Blocks {
+				iff := lastIf(b)
+				if iff == nil {
+					continue
+				}
+				cm, truth, ok := cmpOf(iff.Cond)
+				if !ok || !(isNilConst(cm.x) || isNilConst(cm.y)) || (cm.op != token.EQL && cm.op != token.NEQ) {
+					continue
+				}
+				subj := cm.x
+				if isNilConst(cm.x) {
+					subj = cm.y
+				}
+				isErr := false
+				for _, l := range leaves(subj) {
+					if l == errv {
+						isErr = true
+					}
+				}
+				if !isErr {
+					continue
+				}
+				fail := b.Succs[1]
+				if (cm.op == token.NEQ) == truth {
+					fail = b.Succs[0]
+				}
+				// remove the blocks that call unmarkProcessed: no return may remain reachable from the failure edge
+				removed := map[edge]bool{}
+				unmarks := 0
+				for _, u := range calls(fn, named("(*desync.ChunkStorage).unmarkProcessed")) {
+					if u.Parent() != fn {
+						continue
+					}
+					unmarks++
+					for _, s2 := range u.Block().Succs {
+						removed[edge{u.Block(), s2}] = true
+					}
+				}
+				if unmarks == 0 {
+					continue
+				}
+				reach := reachableFrom(fail, removed)
+				leak := false
+				for _, r := range returnsOf(fn) {
+					blk := r.Block()
+					calledHere := false
+					for _, u := range calls(fn, named("(*desync.ChunkStorage).unmarkProcessed")) {
+						if u.Block() == blk {
+							calledHere = true
+						}
+					}
+					if reach[blk] && !calledHere {
+						leak = true
+					}
+				}
+				if !leak {
+					unmarkOK = true
+				}
+			}
+		}
+	}
+	c.verdict(unmarkOK, "ChunkStorage.StoreChunk:unmark-on-error", fn.Pos(), "a failed store unmarks the id (deferred before the store call, or called on its failure edge)", "a failed StoreChunk leaves the id marked as processed: a later duplicate would be skipped as if it had been stored")
 	c.guardedBy(guardedField{"ChunkStorage", "processed", "Mutex", "ids claimed by some goroutine"}, nil)
 	c.lockPairing("ChunkStorage")
 }
